@@ -126,6 +126,14 @@ def compact_class_pairs(
     grouped_pairs = cluster_pairs_by_class2_coverage_custom_cost(font, all_pairs, level)
     for pairs in grouped_pairs:
         subtables.append(buildPairPosClassesSubtable(pairs, font.getReverseGlyphMap()))
+    # A Class1 row whose values are all zero still stops the lookup at this
+    # subtable for its glyphs. Dropping it would let a later subtable of the same
+    # lookup apply to them, so leave such a subtable alone.
+    covered = set()
+    for st in subtables:
+        covered.update(st.Coverage.glyphs)
+    if covered != set(subtable.Coverage.glyphs):
+        return [subtable]
     return subtables
 
 
